@@ -120,7 +120,6 @@ pub proof fn lemma_bqueue_push(q: Seq<RefProgramLocation>, f: &Function, x: Loc)
 
 //@ source lib/analysis/fixed_point.rs
 //@ fn fn fixed_point_backward_options loops=3
-//@ attr #[verifier::exec_allows_no_decreases_clause]
 //@ rewrite 1 `let state = location_successors .iter() .fold(None, |s, p| match` => `let mut state_acc: Option<State> = None; for p in it: location_successors.iter() { let s = state_acc; state_acc = match` ## R-fold: `iter.fold(init, |s, p| BODY)` is by definition `let mut acc = init; for p in iter { let s = acc; acc = BODY; } acc`; the closure body BODY is kept token for token
 //@ rewrite 1 `None => s, }); let mut state = analysis.trans(` => `None => s, }; } let state = state_acc; let mut state = analysis.trans(` ## R-fold: closes the loop of the rewritten fold and binds its result to the original name
 //@ rewrite 1 `for successor in location.backward()? {` => `let predecessors__ = location.backward()?; for successor in it2: predecessors__ {` ## R-let-iter: binds the iterated vector to a name before the loop and names the ghost iterator, so that invariants can mention them; evaluation order and the `?` are unchanged
@@ -141,7 +140,7 @@ pub proof fn lemma_bqueue_push(q: Seq<RefProgramLocation>, f: &Function, x: Loc)
     let ghost mono = !force && analysis.monotone(f, false);
     let ghost mut li: LMap<State> = |l: Loc| None::<State>;
     proof { Analysis::law_partial_cmp(); }
-//@ before 0 `while !queue.is_empty()`
+//@ before 0 `let mut steps = 0;`
     proof {
         assert(start_loc(f, false) is Some);
         let s0 = start_loc(f, false).unwrap();
@@ -165,6 +164,8 @@ pub proof fn lemma_bqueue_push(q: Seq<RefProgramLocation>, f: &Function, x: Loc)
         dom_inv(&analysis, f, false, bview(states@, function), bqueue(queue@, function)),
         eqs ==> eq_inv(&analysis, f, false, bview(states@, function), bqueue(queue@, function)),
         mono ==> asc_inv(&analysis, f, false, bview(states@, function), li) && solution_least(&analysis, f, false, bview(states@, function)),
+        steps <= DEFAULT_MAX_ANALYSIS_STEPS + 1,
+    decreases DEFAULT_MAX_ANALYSIS_STEPS + 1 - steps,
 //@ before 0 `let location = queue.pop_front().unwrap();`
     let ghost q0 = queue@;
     let ghost st = bview(states@, function);
